@@ -52,3 +52,37 @@ let () =
           vbool (M.all_done s.M.workers);
           vbool (match s.M.d with M.DJoined -> true | _ -> false) ]
     | _ -> failwith "arity")
+
+(* ---- object lifetime (Model/CxxLifetime.v) *)
+module LF = CxxLifetime
+
+let life_label l t =
+  match t with
+  | M.TDestroy ->
+      (match l.LF.own with
+       | LF.OAlive -> "EnterDtor" | LF.OTear -> "Teardown" | LF.OMembers -> "Members"
+       | LF.OShut1 | LF.OShut2 -> label_of l.LF.base t
+       | LF.OAgain1 -> "Store" | LF.OAgain2 -> "Lock" | LF.ODone -> "-")
+  | _ -> label_of l.LF.base t
+
+let () =
+  (* cxx_life_trace calls_shutdown m scripts schedule -> [ steps: [ok label [enabled]]... ; enabled ; hlog ; hazard ; part ; owner done ] *)
+  register "cxx_life_trace" (function [cs; m; sc; sched] ->
+      let cs = (str cs = "1") in
+      let scripts = List.map (fun p -> List.map (fun i -> n_of_int (int_of i)) (lst p)) (lst sc) in
+      let l0 = LF.linit (nat_of_int (int_of m)) scripts in
+      let tids = List.map (fun x -> tid_of (str x)) (lst sched) in
+      let rec go l = function
+        | [] -> (l, [])
+        | t :: r ->
+            (match LF.lstep cs t l with
+             | Some l' -> let (lf, x) = go l' r in (lf, L [S "1"; S (life_label l t); L (List.map vtid (LF.lenabled cs l'))] :: x)
+             | None -> let (lf, x) = go l r in (lf, L [S "0"; S "-"; L (List.map vtid (LF.lenabled cs l))] :: x)) in
+      let (l, steps) = go l0 tids in
+      L [ L steps; L (List.map vtid (LF.lenabled cs l));
+          L (List.map (function M.HB (w, i) -> L [S "B"; vint (int_of_nat w); vint (int_of_n i)]
+                              | M.HE (w, i) -> L [S "E"; vint (int_of_nat w); vint (int_of_n i)]) l.LF.base.M.hlog);
+          vbool l.LF.hazard;
+          S (match l.LF.part with LF.PartAlive -> "alive" | LF.PartDying -> "dying" | LF.PartDead -> "dead");
+          vbool (match l.LF.own with LF.ODone -> true | _ -> false) ]
+    | _ -> failwith "arity")
